@@ -48,12 +48,14 @@ let p_step (s : string) : op =
     Declare (s, times n (fun () -> let f = nat_of_int (num (next ())) in let t = p_texpr () in (f, t)))
   | "C" -> let id = p_nat () in let s = p_nat () in let n = p_int () in
     Construct (id, s, times n (fun () -> let k = p_key () in let v = p_value () in (k, v)))
-  | "W" -> let r = (match next () with "h" -> RHset | "d" -> RDot | "x" -> RInfix | "l" -> RSel | "j" -> RIdx | r -> failwith ("route " ^ r)) in
+  | "W" -> let r = (match next () with "h" -> RHset | "d" -> RDot | "x" -> RInfix | "l" -> RSel | "j" | "k" | "q" -> RIdx | r -> failwith ("route " ^ r)) in
     let id = p_nat () in let k = p_key () in let v = p_value () in Write (r, id, k, v)
   | "N" -> let id = p_nat () in let f = nat_of_int (num (next ())) in let g = nat_of_int (num (next ())) in
     let v = p_value () in Nested (id, f, g, v)
   | "X" -> let id = p_nat () in let k = p_key () in Delete (id, k)
   | "R" -> let id = p_nat () in let v = p_value () in DerefSet (id, v)
+  | "P" -> let pid = p_nat () in let id = p_nat () in TakePtr (pid, id)
+  | "S" -> let pid = p_nat () in let v = p_value () in DerefSetP (pid, v)
   | "J" | "M" -> let ko = p_int () = 1 in let id = p_nat () in let s = p_nat () in let n = p_int () in
     Decode (ko, id, s, times n (fun () -> let f = nat_of_int (num (next ())) in let v = p_value () in (f, v)))
   | t -> failwith ("step " ^ t)
